@@ -292,6 +292,26 @@ def targets(ctx):
         case["mut"] = draw(st.integers(0, 40))
         return case
 
+    # payloads beyond 1 KiB / 64 KiB, copied several times in a row (each copy is mutated before the next is taken)
+    @st.composite
+    def big(draw):
+        n = draw(st.sampled_from([1024, 1100, 5000, 70000]))
+        kind = draw(st.sampled_from(["string", "bytes", "packed", "leaves", "map"]))
+        if kind == "string":
+            msg, tree = "Scalars", {"f_string": "x" * n, "f_int32": draw(st.integers(-5, 5))}
+        elif kind == "bytes":
+            msg, tree = "Optionals", {"o_bytes": b"\x01" * n, "o_int32": 0}
+        elif kind == "packed":
+            msg, tree = "Repeats", {"r_fixed64": [7] * (n // 8 + 1), "r_string": ["a"]}
+        elif kind == "leaves":
+            msg, tree = "Repeats", {"r_leaf": [{"i": 1, "s": "y" * 60}] * (n // 60 + 1)}
+        else:
+            msg, tree = "Maps", {"m_string_leaf": [["k" * (n // 2), {"s": "v" * (n // 2)}]], "m_int32_int32": [[1, 2]]}
+        return {"msg": msg, "tree": tree, "source": draw(st.sampled_from(["construct", "parse"])), "unknown": [], "pos": [],
+                "observers": draw(st.lists(st.sampled_from(["bytes", "len", "eq_self", "repr"]), max_size=2)),
+                "copies": draw(st.lists(st.sampled_from(["pickle", "pickle", "deepcopy", "copy"]), min_size=2, max_size=4)),
+                "mut": draw(st.integers(0, 40))}
+
     def probe_cases():
         for obs in ("to_dict_defaults", "to_pydict_defaults"):
             yield {"msg": "Rec", "tree": {"i32": 1}, "source": "construct", "observers": [obs], "copies": [], "mut": 0}
@@ -300,6 +320,7 @@ def targets(ctx):
 
     return [
         Target("observer_and_copy_histories", ev, strategy=strat(), quick=400, thorough=6000, time_quick=80),
+        Target("big_payload_copy_chains", ev, strategy=big(), quick=40, thorough=400),
         Target("known_finding_probe", ev, cases=probe_cases, exhaustive=True, shard_cases=False),
         _seq.target("C14"),
     ]
